@@ -199,7 +199,7 @@ def run(ctx):
     for k in sorted(set(table) - used):
         ctx.ob("R8.3", "stale:" + k, False, "table row no longer matches", TABLE)
     ctx.floor("gated compile entry points", len(gated_entries), 4)
-    ctx.floor("C08 obligations", len(ctx.obligations), 25)
+    ctx.floor("C08 obligations", len(ctx.obligations), 18)
     _controls(ctx, F)
 
 
